@@ -681,3 +681,100 @@ pub fn interior_cuts(bytes: &[u8]) -> Vec<usize> {
     }
     v
 }
+
+// ------------------------------------------------- SGR-centred streams (C07/C14/C18)
+
+/// CSI sequences that are *not* SGR: a final other than `m`, or `m` with a
+/// private marker and/or intermediates (e.g. xterm's `CSI > 4 ; 2 m`).
+pub fn non_sgr_csi() -> BoxedStrategy<Vec<u8>> {
+    let small_params = || "([0-9]{0,3}(;[0-9]{0,3}){0,4})?".prop_map(String::into_bytes);
+    prop_oneof![
+        // other finals
+        3 => (small_params(), select(vec![b'H', b'J', b'K', b'A', b'B', b'C', b'D', b'h', b'l', b'n', b'r', b's', b'u', b'@', b'~', b'M', b'p']))
+            .prop_map(|(p, f)| { let mut v = vec![0x1b, b'[']; v.extend(p); v.push(f); v }),
+        // private marker + m
+        2 => (select(vec![b'<', b'=', b'>', b'?']), small_params())
+            .prop_map(|(m, p)| { let mut v = vec![0x1b, b'[', m]; v.extend(p); v.push(b'm'); v }),
+        // intermediate + m
+        1 => (small_params(), vec(0x20u8..=0x2f, 1..=2))
+            .prop_map(|(p, i)| { let mut v = vec![0x1b, b'[']; v.extend(p); v.extend(i); v.push(b'm'); v }),
+        // private marker, other final (DECSET etc.)
+        1 => (small_params(), select(vec![b'h', b'l'])).prop_map(|(p, f)| { let mut v = vec![0x1b, b'[', b'?']; v.extend(p); v.push(f); v }),
+    ]
+    .boxed()
+}
+
+#[derive(Clone, Copy, Debug)]
+pub struct SgrStreamCfg {
+    pub max_items: usize,
+    /// non-SGR sequences (CSI, OSC, DCS, ESC, SOS/PM/APC)
+    pub others: bool,
+    pub c0: bool,
+    /// extra text characters (XML specials etc.) for C14
+    pub xml_text: bool,
+    /// only one attribute group per SGR sequence
+    pub single_group: bool,
+}
+
+pub fn xml_text() -> BoxedStrategy<Vec<u8>> {
+    vec(
+        select(vec![
+            "&", "<", ">", "\"", "'", "]]>", "&amp;", "&#10;", "<!--", "-->", "<tspan>", "\t", " ", "  ", "a", "é", "漢",
+            "\u{0301}", "\u{200b}", "\u{200d}", "😀", "\u{85}", "\u{9b}", "\u{a0}", "\u{2028}", "\u{fffd}", "\u{10ffff}",
+        ]),
+        1..=4,
+    )
+    .prop_map(|v| v.concat().into_bytes())
+    .boxed()
+}
+
+pub fn sgr_item(cfg: SgrStreamCfg) -> BoxedStrategy<Item> {
+    let mut opts: Vec<(u32, BoxedStrategy<Item>)> = vec![
+        (5, raw("text-ascii", text_ascii())),
+        (3, raw("text-utf8", text_utf8())),
+        (2, raw("ws", ws_byte().prop_map(|b| vec![b]))),
+        (
+            8,
+            if cfg.single_group {
+                sgr_group().prop_map(|g| Item::Sgr(vec![g])).boxed()
+            } else {
+                sgr_groups().prop_map(Item::Sgr).boxed()
+            },
+        ),
+    ];
+    if cfg.c0 {
+        opts.push((1, raw("c0", c0_byte().prop_map(|b| vec![b]))));
+    }
+    if cfg.xml_text {
+        opts.push((4, raw("text-xml", xml_text())));
+        opts.push((1, raw("crlf", Just(b"\r\n".to_vec()))));
+        opts.push((1, raw("lf", Just(b"\n".to_vec()))));
+    }
+    if cfg.others {
+        opts.push((2, raw("other-csi", non_sgr_csi())));
+        opts.push((1, raw("other-esc", esc_seq())));
+        opts.push((1, raw("other-osc", osc_seq(true, false))));
+        opts.push((1, raw("other-dcs", dcs_seq(true, false))));
+        opts.push((1, raw("other-sos", sos_seq(true, false))));
+    }
+    proptest::strategy::Union::new_weighted(opts).boxed()
+}
+
+/// Valid-UTF-8 stream of text and SGR sequences of the C07 domain, with
+/// underline-kind replacements removed (second component = how many groups
+/// were removed).
+pub fn sgr_stream(cfg: SgrStreamCfg) -> BoxedStrategy<(Vec<Item>, u64)> {
+    vec(sgr_item(cfg), 0..=cfg.max_items)
+        .prop_map(|mut items| {
+            // strings that are not terminated would swallow what follows; that
+            // is fine for the oracle (the reference parser sees the same) but
+            // makes cases trivial, so terminate dangling strings with BEL/ST
+            let removed = drop_underline_replacements(&mut items);
+            (items, removed)
+        })
+        .boxed()
+}
+
+pub fn is_other(item: &Item) -> bool {
+    item.class().starts_with("other-")
+}
